@@ -565,3 +565,17 @@ Section Parser.
       split; [reflexivity|]. split; [reflexivity|]. split; [exact Ec|]. intros _. exact Ev.
   Qed.
 End Parser.
+
+Lemma reveal_matches_key k code rv :
+  reveal (img_jwk k) code = Some rv -> key_matches_reveal (Some k) rv = true.
+Proof.
+  unfold key_matches_reveal, reveal, valid_mh. intros H.
+  apply (valid_of_calc Base.Sha2.sha256 Base.Sha2.sha512 Base.Sha2.sha256_length Base.Sha2.sha512_length) in H. exact H.
+Qed.
+
+Lemma delta_hash_validates d code h :
+  calc_mh (img_delta d) code = Some h -> valid_mh (img_delta_opt (Some d)) h = true.
+Proof.
+  unfold calc_mh, valid_mh, img_delta_opt. intros H.
+  apply (valid_of_calc Base.Sha2.sha256 Base.Sha2.sha512 Base.Sha2.sha256_length Base.Sha2.sha512_length) in H. exact H.
+Qed.
